@@ -33,8 +33,12 @@ func TCP(r *prng.R, o FrameOpt) *rec.Rec {
 		Set("flags", r.Bits(6)).Set("window", r.Bits(16)).Set("checksum", r.Bits(16)).Set("urgent", r.Bits(16)).SetB("data", r.Bytes(dataLen(r, o)))
 }
 func ARP(r *prng.R) *rec.Rec {
-	return rec.New("arp").Set("htype", r.Bits(16)).Set("ptype", r.Bits(16)).Set("hlen", 6).Set("plen", 4).Set("oper", r.Bits(16)).
-		SetB("sha", patBytes(r, 6)).SetB("spa", patBytes(r, 4)).SetB("tha", patBytes(r, 6)).SetB("tpa", patBytes(r, 4))
+	hl, pl := 6, 4
+	if r.Chance(1, 5) { // other link and protocol types: EUI-64, InfiniBand, IPv6-sized addresses, empty ones
+		hl, pl = r.Pick(6, 8, 20, 1, 0), r.Pick(4, 4, 16, 0)
+	}
+	return rec.New("arp").Set("htype", r.Bits(16)).Set("ptype", r.Bits(16)).Set("hlen", uint64(hl)).Set("plen", uint64(pl)).Set("oper", r.Bits(16)).
+		SetB("sha", patBytes(r, hl)).SetB("spa", patBytes(r, pl)).SetB("tha", patBytes(r, hl)).SetB("tpa", patBytes(r, pl))
 }
 
 func IGMP12(r *prng.R) *rec.Rec {
